@@ -293,7 +293,7 @@ func Main() {
 		}
 		s := *seed + uint64(i)**stride
 		o := one(verifsim.NewTape(s), s, *keepTape)
-		if i >= 3 && len(o.Violations) == 0 {
+		if i >= 3 && len(o.Violations) == 0 && !*verbose {
 			o.Sample = nil // keep output small: only the first few runs carry samples
 		}
 		enc.Encode(o)
